@@ -651,6 +651,15 @@ func (g *Gen) next(t Tree) Op {
 			}
 			return Op{K: "archive", Members: ms, DSeed: r.Uint64()}
 		case "update":
+			if !g.o.Twins && r.Intn(6) == 0 {
+				// a replacing update whose only entry has no content (a directory: `stfs operation update` of a directory): one
+				// header-only record, which still has to be a complete archive with its end-of-archive marker
+				if ds := dirsOf(t); len(ds) > 0 {
+					if d := g.pick(ds); d != "/" {
+						return Op{K: "update", A: d, Perm: perms[r.Intn(len(perms))], Flag: 2, DSeed: r.Uint64()}
+					}
+				}
+			}
 			if len(files) == 0 {
 				continue
 			}
